@@ -584,6 +584,12 @@ func (c12) execDemux(f []string) (string, []Fail) {
 	}
 
 	// primer hits of the real matcher, with the calls of ExtractMultiBarcode
+	built := map[string]bool{} // the primer instances the generator put in the read
+	for _, e := range c.exps {
+		built[e.fmatch], built[e.rmatch] = true, true
+	}
+	delete(built, "")
+	foreign := false // a hit that is not a built primer instance
 	hits := " hits"
 	nhits := 0 // hits of the four patterns of every marker over the whole read (both strands): every built site gives one
 	hst := guardT(10*time.Second, func() string {
@@ -610,8 +616,21 @@ func (c12) execDemux(f []string) (string, []Fail) {
 			}
 			s, _ = c12HitList(pcf, aseq, begin)
 			hits += s
-			for _, pat := range []obiapat.ApatPattern{pf, pcf, pr, pcr} {
-				nhits += len(pat.AllMatches(aseq, 0, -1))
+			for k, pat := range []obiapat.ApatPattern{pf, pcf, pr, pcr} {
+				for _, l := range pat.AllMatches(aseq, 0, -1) {
+					nhits++
+					if l[0] < 0 || l[1] > len(c.seq) || l[0] > l[1] {
+						foreign = true
+						continue
+					}
+					w := string(c.seq[l[0]:l[1]])
+					if k == 1 || k == 3 {
+						w = c12Rc(w)
+					}
+					if !built[w] {
+						foreign = true
+					}
+				}
 			}
 		}
 		return "ok"
@@ -646,7 +665,7 @@ func (c12) execDemux(f []string) (string, []Fail) {
 	}
 
 	// determinism: the result must not depend on the iteration order of Go maps
-	for k := 0; k < 6; k++ {
+	for k := 0; k < 4; k++ {
 		_, r2 := run(c.seq, false)
 		if r2 != res {
 			fails = append(fails, Fail{"demux.nondeterministic", "two runs on the same read differ: " + res + "  VERSUS  " + r2})
@@ -697,16 +716,23 @@ func (c12) execDemux(f []string) (string, []Fail) {
 	// expectation of the generator + strand symmetry
 	if strings.HasPrefix(c.cls, "c") {
 		n, _ := strconv.Atoi(c.cls[1:])
-		if n != nhits {
+		if n != nhits || foreign {
 			stat("demux.accidental-hits")
 		} else {
 			stat("demux.expectation-checked")
 			fails = append(fails, c12Check(c, recs, "built", false)...)
+			// reads containing lone priming sites are reported under their own signature
+			sig := "symmetry"
+			for _, e := range c.exps {
+				if e.dir == "x" {
+					sig = "symmetry-partial"
+				}
+			}
 			rrecs, rres := run([]byte(c12Rc(string(c.seq))), true)
 			if !strings.HasPrefix(rres, "ok ") {
-				fails = append(fails, Fail{"symmetry.abort", "reverse-complemented read: " + rres})
+				fails = append(fails, Fail{sig + ".abort", "reverse-complemented read: " + rres})
 			} else {
-				fails = append(fails, c12Check(c, rrecs, "symmetry", true)...)
+				fails = append(fails, c12Check(c, rrecs, sig, true)...)
 			}
 		}
 	} else {
@@ -721,7 +747,12 @@ func (c12) execDemux(f []string) (string, []Fail) {
 // c12Check compares the records with the generator's intent (flipped: the read was reverse-complemented, the amplicons
 // come out in the opposite order with the opposite direction)
 func c12Check(c *c12Case, recs []c12Rec, sig string, flipped bool) (fails []Fail) {
-	exps := append([]c12Exp{}, c.exps...)
+	var exps []c12Exp
+	for _, e := range c.exps {
+		if e.dir != "x" {
+			exps = append(exps, e)
+		}
+	}
 	if flipped {
 		for i, j := 0, len(exps)-1; i < j; i, j = i+1, j-1 {
 			exps[i], exps[j] = exps[j], exps[i]
@@ -1022,6 +1053,7 @@ func c12Library(rng *rand.Rand) *c12Case {
 }
 
 type c12Built struct {
+	lone  *c12Exp // a lone priming site within budget (dir "x"): only its primer instance is recorded
 	text  string
 	exp   *c12Exp // nil: no complete amplicon within budget
 	sites int     // primer sites within budget
@@ -1098,6 +1130,14 @@ func c12Amplicon(rng *rand.Rand, c *c12Case, mi int, class int) c12Built {
 	if okR {
 		b.sites++
 		b.kinds += "c"
+	}
+	if okF != okR {
+		b.lone = &c12Exp{dir: "x", mk: mi}
+		if okF {
+			b.lone.fmatch = pf
+		} else {
+			b.lone.rmatch = pr
+		}
 	}
 	if okF && okR {
 		oft, ort := ftag, rtag
@@ -1177,6 +1217,9 @@ func c12Read(rng *rand.Rand, c *c12Case) {
 		sites += b.sites
 		if b.exp != nil {
 			c.exps = append(c.exps, *b.exp)
+		}
+		if b.lone != nil {
+			c.exps = append(c.exps, *b.lone)
 		}
 		if a+1 < namp {
 			sb.WriteString(c12Rand(rng, rng.Intn(12), "acgt"))
@@ -1302,11 +1345,14 @@ func (c12) Gen(rng *rand.Rand, tier string, emit func(string)) {
 	for _, c := range corpus {
 		emit(c.line())
 	}
+	// 5. three lone sites F .. R .. CR of one marker: nothing is extracted from the read, but on its reverse complement the
+	//    complemented-reverse hits are not even collected (no forward hit there) and F..CR comes out as a barcode
+	emit("demux c 16 0 0 1 74616163616161616363636161616163676763 67676174746361617461676167676174747467636163 2 0 0 0 0 0 h 1 1 0 0 2 746367746763 747461616367 73305f30 65787030 - 676167676763 616174676367 73305f31 65787031 - 7265616431 747474746763636361617467676761676767636163746161636161616163636361616161636767636367616761616161746374676363676367636161676361616363676361747467637461676367637474616163676767617474636161746167616767617474746763616363616361747463616361746367746763617461677467617461676363677474747467616374747474677474616761676361636761746361617467676167676763616774616167616161746363636161616163676774636774636763616363637463747467637467746167677467616367636763636774636374677474676167636361616167636767616367677467636161617463637463746174746761617463636367636174746774637474676374676361676763 cls c3 exp 3 - x 0 - - - 74616163616161616363636161616163676763 - 0 0 - x 0 - - - - 67676174746361617461676167676174747467636163 0 0 - x 0 - - - - 67676174746361617461676167676174747467636163 0 0")
 
 	// ---- random cases ----------------------------------------------------------------------------
-	nlib, nread, nunit := 160, 12, 1500
+	nlib, nread, nunit := 300, 12, 1500
 	if tier == "thorough" {
-		nlib, nread, nunit = 700, 16, 6000
+		nlib, nread, nunit = 400, 12, 2500
 	}
 	for i := 0; i < nunit; i++ {
 		alpha := []string{"acgt", "ac", "a"}[rng.Intn(3)]
